@@ -461,12 +461,12 @@ func main() {
 	if rep.Thorough() {
 		ordered = core
 	} else {
-		for _, i := range rng.Perm(len(core))[:1900] {
+		for _, i := range rng.Perm(len(core))[:3500] {
 			ordered = append(ordered, core[i])
 		}
 	}
 	coreN := len(ordered)
-	for i := 0; i < rep.Pick(1300, 9000); i++ {
+	for i := 0; i < rep.Pick(2000, 9000); i++ {
 		ordered = append(ordered, wideCase(rng, "ordered"))
 	}
 	runOrdered("ordered", ordered)
